@@ -15,7 +15,7 @@ RULE = ('random histories of subscribe / publish calls over 2-5 queues (plain de
         'publish call, at most once more per kind registered later (it may still have been in transit), and never in a queue that did '
         'not subscribe to its signal. distinct_nontrivial = distinct (queues, signals, history shape) tuples with a repeated subscription')
 CASES = {'quick': 2500, 'thorough': 150000}
-BUDGET = {'quick': 50, 'thorough': 300}
+BUDGET = {'quick': 150, 'thorough': 300}
 REQUIRE = {'histories': 1000, 'repeated_subscriptions': 1000, 'publications_checked': 8000, 'histories_with_equal_queues': 500}
 ASSUME = ['the fabric is running; capacities are large enough for every publication']
 ANNOUNCE_CASES = True
